@@ -2,8 +2,8 @@
 from vfam import *  # noqa
 from remerkleable.core import BasicView
 
-THEOREMS = ["C15_index_reads_content", "C15_node_iter_agrees_with_indexing", "C15_packed_iter_agrees_with_indexing", "C15_bit_iter_agrees_with_indexing", "C15_list_reads", "C15_eq_iff_root", "C15_hash_consistent", "C15_equal_content_equal"]
-PARTIAL = ["all three stack iterators (NodeIter, PackedIter, BitfieldIter) are proved equal to indexing for every tree / depth / count (binary-increment invariant + intra-chunk counter incl. the 255->0 wrap); that the Python iterators are these machines is tied by the correspondence on lengths sweeping every subtree boundary", "C15_root_iff_content (equal roots => equal contents, needs Hinj) is not proved"]
+THEOREMS = ["C15_index_reads_content", "C15_node_iter_agrees_with_indexing", "C15_packed_iter_agrees_with_indexing", "C15_bit_iter_agrees_with_indexing", "C15_list_reads", "C15_eq_iff_root", "C15_hash_consistent", "C15_equal_content_equal", "C15_root_iff_content", "C15_eq_iff_content"]
+PARTIAL = ["all three stack iterators (NodeIter, PackedIter, BitfieldIter) are proved equal to indexing for every tree / depth / count (binary-increment invariant + intra-chunk counter incl. the 255->0 wrap); == is root equality and, under collision-freeness of the pair hash (Hinj), exactly content equality for any two representations (C15_root_iff_content, C15_eq_iff_content); that the Python iterators / slicing / __eq__ are these model functions is tied by the correspondence on lengths sweeping every subtree boundary"]
 COQ_IMPORTS = ["RM.Types", "RMR.RunC15"]
 COQ_FN = "RunC15.run"
 COQ_CASE_TY = "RunC15.case"
